@@ -5,4 +5,20 @@ OneDir == {"c"}
 SmallSizes == {1, 5}
 OneHs == {3}
 NoHs == {}
+
+\* The channel stage of the composition takes only steps of the windowed
+\* in-order exactly-once channel that GBN.tla is shown to refine
+\* (RelChan.tla): a message is accepted when it is handed to GBN (inflight),
+\* delivered when it reaches the reader's side (got).
+Chan == INSTANCE RelChan WITH
+           Dir <- Dirs, Window <- Window,
+           acc <- [d \in Dirs |-> Len(got[d]) + Len(inflight[d])],
+           dl <- [d \in Dirs |-> [i \in 1..Len(got[d]) |-> i]]
+ChannelSteps == Chan!Spec
+\* ... and what is delivered is the oldest undelivered message itself
+ChannelContent ==
+    [][\A d \in Dirs : got'[d] # got[d] =>
+          /\ inflight[d] # <<>>
+          /\ got'[d] = Append(got[d], Head(inflight[d]))
+          /\ inflight'[d] = Tail(inflight[d])]_vars
 =============================================================================
